@@ -28,8 +28,19 @@ func TestProbe(t *testing.T) {
 	}
 	f1, err := tick.Format(s)
 	fmt.Printf("format1 err=%v:\n%s\n", err, f1)
-	f2, err := tick.Format(f1)
-	fmt.Printf("format2 err=%v same=%v:\n%s\n", err, f1 == f2, f2)
+	cur := f1
+	for i := 2; i < 10; i++ {
+		nx, err := tick.Format(cur)
+		fmt.Printf("format%d err=%v same=%v\n", i, err, nx == cur)
+		if err != nil || nx == cur {
+			break
+		}
+		fmt.Println(firstDiff(cur, nx))
+		if os.Getenv("C13_VERBOSE") != "" {
+			fmt.Println(nx)
+		}
+		cur = nx
+	}
 	p2, err := create(f1, edge, nil)
 	fmt.Printf("create(format): err=%v\n", err)
 	if p != nil && p2 != nil {
@@ -38,5 +49,20 @@ func TestProbe(t *testing.T) {
 		if a.Strict != b.Strict {
 			fmt.Println(firstDiff(a.Strict, b.Strict))
 		}
+	}
+}
+
+func TestProbeStab(t *testing.T) {
+	f := os.Getenv("C13_PROBE")
+	if f == "" {
+		t.Skip()
+	}
+	b, _ := os.ReadFile(f)
+	f1, _ := tick.Format(string(b))
+	st := stability(f1, tick.Format)
+	fmt.Printf("changed=%v unstable=%v class=%q n=%d\n", st.changed, st.unstable, st.class, len(st.trace))
+	for i := 1; i < len(st.trace); i++ {
+		fmt.Println(i, stripSpace(st.trace[i-1]) == stripSpace(st.trace[i]))
+		fmt.Println(firstDiff(stripSpace(st.trace[i-1]), stripSpace(st.trace[i])))
 	}
 }
